@@ -11,11 +11,11 @@ def run(R, ctx):
         R, ctx, name="hash",
         gens=[(1, families.hash_reread(execgen_hash.hash_cmd))],
         nprog=(500, 8000), corpus="exec_c10",
-        extra_lines=families.refused_changes_nothing(random.Random(R.seed * 31 + 10), 120 if R.tier == "quick" else 2000),
+        extra_lines=families.refused_changes_nothing(random.Random(R.seed * 31 + 10), 120 if R.tier == "quick" else 2000) + families.arith_grid("hash"),
         what="hash commands (HSET with one to four pairs incl. repeated fields and odd argument counts, HSETNX, HGET, HMGET, HGETALL, HKEYS, "
              "HVALS, HLEN, HEXISTS, HSTRLEN, HDEL down to the empty hash, HINCRBY at the int64 limits, HINCRBYFLOAT incl. inf/nan/overflow, "
              "HRANDFIELD with no/positive/negative/extreme counts and WITHVALUES) interleaved with SET/DEL/EXPIRE/PERSIST/TTL/TYPE/EXISTS/RENAME "
-             "on the same keys; fields and values from a binary alphabet with the empty string, numbers, extreme integers and floats; refused-command scenarios followed by a full dump (a refused command changes nothing)")
+             "on the same keys; fields and values from a binary alphabet with the empty string, numbers, extreme integers and floats; refused-command scenarios followed by a full dump (a refused command changes nothing); the int64 boundary grid: every pair (stored value, increment) of 11 edge values through HINCRBY")
 
 
 def replay(R, payload):
